@@ -370,6 +370,23 @@ pub extern "C" fn vh_c17_constructors() {
             if x != 92 {
                 check(eqv(&a.s, &[97, ex, 98]), 16);
             }
+        } else if group >= 5 {
+            // literal text in which the character follows an unfinished escape prefix
+            let prefixes: [&str; 8] = ["\\", "\\u", "\\u1", "\\u12", "\\u123", "\\u{", "\\u{1", "\\u{12345"];
+            let pre = prefixes[(group - 5) as usize % 8];
+            let mut st = String::new();
+            st.push_str(pre);
+            st.push(c);
+            st.push('z');
+            let a = parse_smt_literal(st.as_str());
+            check(a.is_good(), 18);
+            // nothing is decoded: every character of the unfinished prefix is copied, then c (or its replacement), then z
+            if x != 92 && !((x >= 48 && x <= 57) || (x >= 65 && x <= 70) || (x >= 97 && x <= 102)) && x != 123 && x != 125 && x != 117 {
+                let mut want: Vec<u32> = pre.chars().map(|ch| ch as u32).collect();
+                want.push(ex);
+                want.push(122);
+                check(eqv(&a.s, &want), 19);
+            }
         } else {
             // a string obtained from a char can be turned into a regular expression without panicking
             let a = SmtString::from(c);
